@@ -84,11 +84,18 @@ class World:
 
 
 def _defaults():
-    import ceos_alos2.io as cio
-    import ceos_alos2.xarray as cx
+    """the default arguments of every function the package defines (whatever they are called): {qualified name: repr}"""
+    import inspect
+    import sys
 
-    return (copy.deepcopy(cx.open_alos2.__defaults__), copy.deepcopy(cx.open_alos2.__kwdefaults__),
-            copy.deepcopy(cio.open.__defaults__), copy.deepcopy(cio.open.__kwdefaults__))
+    out = {}
+    for name, mod in list(sys.modules.items()):
+        if not name.startswith("ceos_alos2") or ".tests" in name or mod is None:
+            continue
+        for attr, f in list(vars(mod).items()):
+            if inspect.isfunction(f) and getattr(f, "__module__", None) == name and (f.__defaults__ or f.__kwdefaults__):
+                out[f"{name}.{attr}"] = repr((f.__defaults__, f.__kwdefaults__))
+    return out
 
 
 def step(W, op, obs, violations, kept, tier):
@@ -165,8 +172,10 @@ def step(W, op, obs, violations, kept, tier):
         violations.append({"what": f"step {op} changed the user cache directory although it may not: {bad_c}", "detail": detail})
     if cc and kind == "open" and not uc and tree is not None and not all(os.path.isfile(p) for p in W.user):
         violations.append({"what": f"step {op}: create_cache=True left no index file in the user cache directory", "detail": detail})
-    if _defaults() != defaults:
-        violations.append({"what": f"step {op} changed a function's default arguments", "detail": detail})
+    after = _defaults()
+    changed = sorted(k for k in defaults if k in after and after[k] != defaults[k])
+    if changed:
+        violations.append({"what": f"step {op} changed the default arguments of {changed[:3]}: {defaults[changed[0]]} -> {after[changed[0]]}", "detail": detail})
     # --- the tree
     if tree is not None:
         try:
